@@ -109,3 +109,74 @@ Proof.
   intros xi w dt Hw H0 H1 Hdt cr n i Hi. split; [now apply ramp_solves|].
   apply (P_C01.series_exact xi w dt Hw H0 H1 Hdt); [now apply ramp_solves|]. now rewrite map_length, seq_length.
 Qed.
+
+(** * The tie of the recurrence to the SOURCE TEXT (proofs in P_C01_loop)
+    [gen_load], [gen_record_sign], [gen_c2pi], [gen_w], [gen_init_u/v], [gen_step_u/v], [gen_resp_acc],
+    [gen_resp_acc_lead0], [gen_zero_row_acc] are the scalar readings of the statements of
+    eqsig/sdof.py:nigam_and_jennings_response that surround compute_a_and_b, re-extracted with Python `ast` on every run
+    (translator/py2coq_sdof_loop.py -> gen/Gen_sdof_loop.v; the accepted syntactic forms are listed in that file's header).
+    The theorems below hold for all arguments; a changed operand, index, sign or literal in the source changes the
+    generated text and breaks them.
+    Still NOT proved / still only by correspondence: that numpy's array statements mean these scalar readings row by row
+    (slicing `[s:, i]`, broadcasting of `w[:, np.newaxis]`, the order of the two assignments inside one iteration, the
+    number of loop iterations), the `periods[0] == 0` branch selection, the container conversions, and floating point. *)
+From EQ Require Import gen.Gen_sdof_loop proofs.P_C01_loop.
+
+(** loop body: the model step is the pair of the two source assignments
+    `resp_u[s:, i + 1] = ...`, `resp_v[s:, i + 1] = ...` read for one oscillator *)
+Theorem C01_step_is_source : forall (c : coeffs R) (s : R * R) f0 f1,
+  nj_step c s f0 f1
+  = (gen_step_u (a11 c) (a12 c) (a21 c) (a22 c) (b11 c) (b12 c) (b21 c) (b22 c) (fst s) (snd s) f0 f1,
+     gen_step_v (a11 c) (a12 c) (a21 c) (a22 c) (b11 c) (b12 c) (b21 c) (b22 c) (fst s) (snd s) f0 f1).
+Proof. exact P_C01_loop.step_is_source. Qed.
+
+(** recurrence: for every record the model series has the record's length, starts from the source's np.zeros state and
+    satisfies the source loop read index-wise (load_i = gen_load rec_i, i.e. `acc[i]` after `acc = -np.array(acc)`) ... *)
+Theorem C01_loop_is_source : forall (c : coeffs R) (rec : list R),
+  length (nj_series c rec) = length rec /\
+  (rec <> [] -> nth 0 (nj_series c rec) (0, 0) = (gen_init_u, gen_init_v)) /\
+  forall i, (S i < length rec)%nat ->
+    nth (S i) (nj_series c rec) (0, 0)
+    = gen_step c (nth i (nj_series c rec) (0, 0)) (gen_load (nth i rec 0)) (gen_load (nth (S i) rec 0)).
+Proof. exact P_C01_loop.loop_is_source. Qed.
+(** ... and is the only list that does *)
+Theorem C01_loop_characterises : forall (c : coeffs R) (rec : list R) (L : list (R * R)),
+  length L = length rec ->
+  (rec <> [] -> nth 0 L (0, 0) = (gen_init_u, gen_init_v)) ->
+  (forall i, (S i < length rec)%nat ->
+     nth (S i) L (0, 0) = gen_step c (nth i L (0, 0)) (gen_load (nth i rec 0)) (gen_load (nth (S i) rec 0))) ->
+  L = nj_series c rec.
+Proof. exact P_C01_loop.loop_characterises. Qed.
+
+(** third series: both branches of `if s:` give the model's [resp_acc]; sample by sample on a row; the T = 0 row *)
+Theorem C01_third_series_is_source : forall xi w (s : R * R),
+  resp_acc xi w s = gen_resp_acc xi w (fst s) (snd s) /\ resp_acc xi w s = gen_resp_acc_lead0 xi w (fst s) (snd s).
+Proof. intros. split; [apply P_C01_loop.resp_acc_is_source | apply P_C01_loop.resp_acc_lead0_is_source]. Qed.
+Theorem C01_row_third_is_source : forall (c : coeffs R) xi w (rec : list R) i, (i < length rec)%nat ->
+  nth i (snd (row c xi w rec)) 0
+  = gen_resp_acc xi w (nth i (fst (fst (row c xi w rec))) 0) (nth i (snd (fst (row c xi w rec))) 0) /\
+  nth i (snd (row c xi w rec)) 0
+  = gen_resp_acc_lead0 xi w (nth i (fst (fst (row c xi w rec))) 0) (nth i (snd (fst (row c xi w rec))) 0).
+Proof. exact P_C01_loop.row_third_is_source. Qed.
+Theorem C01_zero_row_is_source : forall (rec : list R) i, (i < length rec)%nat ->
+  nth i (fst (fst (zero_row rec))) 0 = gen_init_u /\ nth i (snd (fst (zero_row rec))) 0 = gen_init_v /\
+  nth i (snd (zero_row rec)) 0 = gen_zero_row_acc (gen_load (nth i rec 0)).
+Proof. exact P_C01_loop.zero_row_is_source. Qed.
+
+(** sign: the load fed to the recurrence is the record times the source's sign (-1), from the source's zero state *)
+Theorem C01_sign_is_source : gen_record_sign = -1 /\ (forall a, gen_load a = gen_record_sign * a) /\
+  forall (c : coeffs R) (rec : list R),
+    nj_series c rec
+    = match map (fun a => gen_record_sign * a) rec with [] => [] | f0 :: r => nj_run c (gen_init_u, gen_init_v) f0 r end.
+Proof.
+  split; [exact P_C01_loop.record_sign_is_source|]. split; [exact P_C01_loop.load_is_sign_times|].
+  exact P_C01_loop.series_sign_is_source.
+Qed.
+
+(** constant: the model's [w_of] with the source literal is the source's `w = 6.2831853 / periods[s:]`; the literal is
+    the decimal 6.2831853 and lies within 7.2e-9 of 2 pi *)
+Theorem C01_constant_is_source : gen_c2pi = 62831853 / 10000000 /\ (forall P, w_of gen_c2pi P = gen_w P) /\
+  Rabs (gen_c2pi - 2 * PI) <= 72 / 10000000000.
+Proof.
+  split; [exact P_C01_loop.c2pi_is_source|]. split; [exact P_C01_loop.w_is_source | exact P_C01_loop.c2pi_near_2pi].
+Qed.
